@@ -3,7 +3,7 @@
    nat, positive, N, Z, ascii, string stay Coq datatypes; there is no Extract Constant. *)
 From Coq Require Import ExtrOcamlBasic.
 From Coq Require Import List ZArith String DecimalString DecimalZ.
-From DD Require Import Model.Circuit.
+From DD Require Import Model.Circuit Model.Query Model.Enumerate.
 From DD Require Import Model.StreamTS.
 
 Definition z_to_string (z : Z) : string := NilEmpty.string_of_int (Z.to_int z).
@@ -16,4 +16,7 @@ Extraction "../ocaml/model.ml"
   all_cfgs canon canon_cfg asg_of Models MC ModelsA MCA contains_all
   check_wf idx_ok decomposable smooth complete det_cert unique_leaves no_dead no_true_false
   lits_nonzero all_reachable
+  build fresh_scratch execute_query sat sat_propagate core_dead_with_assumptions
+  card_of_each_feature get_marked_nodes_clone marks mdl temps pds calculate_core lit_idx
+  enumerate uniform_random_sampling is_perm sort_abs
   StreamTS.init StreamTS.stepf StreamTS.run StreamTS.plan StreamTS.valid_event StreamTS.valid_trace StreamTS.before_exit.
